@@ -346,9 +346,9 @@ theorem c08_exactN (O : Oracles) (S : String → String → Bool)
       v.isNone = false ∧ Accepted O opts ign f v
   | .seqOf k f sz, n, ign, v, hf, hrf, hd, hj, h => by
     simp only [exactF, and_true_iff'] at hf
-    have hk : k = .list := by simpa using hf.1.1
+    have hk : k = .list := by simpa using hf.1.1.1
     subst hk
-    have hu : sz.uniq = false := by simpa using hf.1.2
+    have hu : sz.uniq = false := by simpa using hf.1.1.2
     simp only [RefsFaithful] at hrf
     simp only [refDepth] at hd
     simp only [emit, c08_elemWrap_exact f _ hf.2] at h
@@ -364,7 +364,7 @@ theorem c08_exactN (O : Oracles) (S : String → String → Bool)
       simp [validate, vSeq, seqElems, uniqOk, hu, hl', hsz, hv, mkSeq]
   | .tupleOf f u, n, ign, v, hf, hrf, hd, hj, h => by
     simp only [exactF, and_true_iff'] at hf
-    have hu : u = false := by simpa using hf.1
+    have hu : u = false := by simpa using hf.1.1
     subst hu
     simp only [RefsFaithful] at hrf
     simp only [refDepth] at hd
@@ -413,6 +413,16 @@ theorem c08_exactN (O : Oracles) (S : String → String → Bool)
         exact hcore
       · have hmem : c.name ∈ c.accepts := by simpa using hacc0
         simp [validate, hin, vClassRef, hmem]
+  | .anyOf [g, .noneF], n, ign, v, hf, hrf, hd, hj, h => by
+    have hg : exactF g = true := by simpa [exactF, exactOpt] using hf
+    simp only [RefsFaithful, RefsFaithfulL] at hrf
+    simp only [refDepth, refDepthL] at hd
+    have hemit : emit true (.anyOf [g, .noneF]) = emit true g := by simp [emit, anyOfShape, emitL]
+    rw [hemit] at h
+    obtain ⟨hnn, y, y', hdd, hv⟩ := c08_exactN O S hS opts D g n false v hg hrf.1 (by omega) hj h
+    refine ⟨hnn, y, y', ?_, ?_⟩
+    · simp [deser, hnn, deserAny, hdd]
+    · simp [validate, validateAny, hv]
   | .number o, n, ign, v, hf, _, _, _, h => by
     have hf' : exactScalar (.number o) = true := by simpa [exactF] using hf
     refine ⟨?_, exact_scalar O _ S hS opts ign _ v hf' h⟩
@@ -454,7 +464,31 @@ theorem c08_exactN (O : Oracles) (S : String → String → Bool)
   | .tuplePos _ _, _, _, _, hf, _, _, _, _ => by simp [exactF] at hf
   | .mapAny _, _, _, _, hf, _, _, _, _ => by simp [exactF] at hf
   | .mapOf _ _ _, _, _, _, hf, _, _, _, _ => by simp [exactF] at hf
-  | .anyOf _, _, _, _, hf, _, _, _, _ => by simp [exactF] at hf
+  | .anyOf [], _, _, _, hf, _, _, _, _ => by simp [exactF, exactOpt] at hf
+  | .anyOf [_], _, _, _, hf, _, _, _, _ => by simp [exactF, exactOpt] at hf
+  | .anyOf (_ :: _ :: _ :: _), _, _, _, hf, _, _, _, _ => by simp [exactF, exactOpt] at hf
+  | .anyOf [_, .number _], _, _, _, hf, _, _, _, _ => by simp [exactF, exactOpt] at hf
+  | .anyOf [_, .integer _], _, _, _, hf, _, _, _, _ => by simp [exactF, exactOpt] at hf
+  | .anyOf [_, .float _], _, _, _, hf, _, _, _, _ => by simp [exactF, exactOpt] at hf
+  | .anyOf [_, .string _ _ _], _, _, _, hf, _, _, _, _ => by simp [exactF, exactOpt] at hf
+  | .anyOf [_, .boolean], _, _, _, hf, _, _, _, _ => by simp [exactF, exactOpt] at hf
+  | .anyOf [_, .enumLit _], _, _, _, hf, _, _, _, _ => by simp [exactF, exactOpt] at hf
+  | .anyOf [_, .enumCls _ _], _, _, _, hf, _, _, _, _ => by simp [exactF, exactOpt] at hf
+  | .anyOf [_, .seqAny _ _], _, _, _, hf, _, _, _, _ => by simp [exactF, exactOpt] at hf
+  | .anyOf [_, .seqOf _ _ _], _, _, _, hf, _, _, _, _ => by simp [exactF, exactOpt] at hf
+  | .anyOf [_, .seqPos _ _ _ _], _, _, _, hf, _, _, _, _ => by simp [exactF, exactOpt] at hf
+  | .anyOf [_, .setAny _ _], _, _, _, hf, _, _, _, _ => by simp [exactF, exactOpt] at hf
+  | .anyOf [_, .setOf _ _ _], _, _, _, hf, _, _, _, _ => by simp [exactF, exactOpt] at hf
+  | .anyOf [_, .tupleOf _ _], _, _, _, hf, _, _, _, _ => by simp [exactF, exactOpt] at hf
+  | .anyOf [_, .tuplePos _ _], _, _, _, hf, _, _, _, _ => by simp [exactF, exactOpt] at hf
+  | .anyOf [_, .mapAny _], _, _, _, hf, _, _, _, _ => by simp [exactF, exactOpt] at hf
+  | .anyOf [_, .mapOf _ _ _], _, _, _, hf, _, _, _, _ => by simp [exactF, exactOpt] at hf
+  | .anyOf [_, .struct _ _ _], _, _, _, hf, _, _, _, _ => by simp [exactF, exactOpt] at hf
+  | .anyOf [_, .anyOf _], _, _, _, hf, _, _, _, _ => by simp [exactF, exactOpt] at hf
+  | .anyOf [_, .oneOf _], _, _, _, hf, _, _, _, _ => by simp [exactF, exactOpt] at hf
+  | .anyOf [_, .allOf _], _, _, _, hf, _, _, _, _ => by simp [exactF, exactOpt] at hf
+  | .anyOf [_, .notF _], _, _, _, hf, _, _, _, _ => by simp [exactF, exactOpt] at hf
+  | .anyOf [_, .anything], _, _, _, hf, _, _, _, _ => by simp [exactF, exactOpt] at hf
   | .oneOf _, _, _, _, hf, _, _, _, _ => by simp [exactF] at hf
   | .allOf _, _, _, _, hf, _, _, _, _ => by simp [exactF] at hf
   | .notF _, _, _, _, hf, _, _, _, _ => by simp [exactF] at hf
